@@ -2768,6 +2768,8 @@ class UserManufacturerInfoResponse(APCI):
 
     def to_knx(self) -> bytearray:
         """Serialize to KNX/IP raw data."""
+        if len(self.data) != 2:
+            raise ConversionError("Data must be 2 bytes.")
         payload = struct.pack("!B2s", self.manufacturer_id, self.data)
 
         return encode_cmd_and_payload(self.CODE, appended_payload=payload)
